@@ -92,7 +92,7 @@ func decodeOneRegisterAndOneImmediate(instructionCode []byte, pc ProgramCounter,
 // A.5.7
 func decodeOneRegisterAndTwoImmediates(instructionCode []byte, pc ProgramCounter, skipLength ProgramCounter) (int8, uint64, uint64, error) {
 	rA := int8(min(12, instructionCode[pc+1]%16))
-	lX := min(4, ProgramCounter(uint8((instructionCode[pc+1] >> 4))))
+	lX := min(4, ProgramCounter(uint8((instructionCode[pc+1]>>4)%8)))
 	pcMargin := pc + 2 + lX
 	decodedVX, err := utils.DeserializeFixedLength(instructionCode[pc+2:pcMargin], types.U64(lX))
 	if err != nil {
